@@ -37,3 +37,43 @@ def trimChars (cs : List Char) : List Char :=
 def rtrim (s : String) : String := String.ofList (trimChars s.toList)
 
 end CwMt
+
+namespace CwMt
+
+/-- decode one varint; returns value and rest -/
+def unvarintAux : Nat → List UInt8 → Nat → Nat → Option (Nat × List UInt8)
+  | 0, _, _, _ => none
+  | _ + 1, [], _, _ => none
+  | fuel + 1, b :: rest, shift, acc =>
+    let v := acc + (b.toNat % 128) * 2 ^ shift
+    if b.toNat < 128 then some (v, rest) else unvarintAux fuel rest (shift + 7) v
+
+def unvarint (bs : List UInt8) : Option (Nat × List UInt8) := unvarintAux 10 bs 0 0
+
+/-- reads an optional length-delimited field with the given tag at the head of `bs` -/
+def takeField (tag : UInt8) (bs : List UInt8) : Option (List UInt8 × List UInt8) :=
+  match bs with
+  | t :: rest =>
+    if t = tag then
+      match unvarint rest with
+      | some (n, rest') => if n ≤ rest'.length then some (rest'.take n, rest'.drop n) else none
+      | none => none
+    else some ([], bs)
+  | [] => some ([], [])
+
+/-- inverse of `encodeExecuteResponse` -/
+def decodeExecuteResponse (bs : List UInt8) : Option (List UInt8) :=
+  match takeField 0x0a bs with
+  | some (d, []) => some d
+  | _ => none
+
+/-- inverse of `encodeInstantiateResponse` (address as bytes) -/
+def decodeInstantiateResponse (bs : List UInt8) : Option (List UInt8 × List UInt8) :=
+  match takeField 0x0a bs with
+  | some (a, rest) =>
+    match takeField 0x12 rest with
+    | some (d, []) => some (a, d)
+    | _ => none
+  | none => none
+
+end CwMt
